@@ -627,7 +627,10 @@ theorem EnsAt.catchNotDefined {m : M α} {h : Stop → M α} {P : α → St → 
   refine EnsAt.tryCatch hm fun e σ1 h1 h2 => ?_
   split
   · split
-    · exact hh _ σ1 h1 h2
+    · refine EnsAt.get_bind ?_
+      split
+      · exact hh _ σ1 h1 h2
+      · exact EnsAt.throw h1
     · exact EnsAt.throw h1
   · exact EnsAt.throw h1
 
